@@ -55,7 +55,10 @@ type scenario struct {
 	MountDeclK  []int    `json:"mount_decline_k,omitempty"` // the registry declines the k-th cross-repository mount request it sees (202 + upload session), grants the others
 	MountDeclN  []string `json:"mount_decline_n,omitempty"` // ... declines the mount of these blobs
 	Cancel202   int      `json:"cancel202,omitempty"`
-	Prior       string   `json:"prior,omitempty"`     // what the same client did before the observed copy: "copy" = copied the image to another repository of the target registry, "get" = fetched every manifest of the source by digest
+	Leftover    int      `json:"leftover,omitempty"`  // the source has the referrers API AND bare sha256-<digest> tags (indexes of the referrers) left over
+	Wipe        string   `json:"wipe,omitempty"`      // prior "recopy": what vanished from the target afterwards, behind the client's back: all | blobs (blobs and tags)
+	Mirror      string   `json:"mirror,omitempty"`    // client host config names an (empty) mirror for: tgt | src | both
+	Prior       string   `json:"prior,omitempty"`     // what the same client did before the observed copy: "copy" = copied the image to another repository of the target registry, "get" = fetched every manifest of the source by digest, "recopy" = made the same copy before (then Wipe happened)
 	ListOrder   string   `json:"listorder,omitempty"` // order in which registries list tags / referrers: "" sorted | rev | ins (named tags first, digest tags after) | rand (seeded)
 	Callback    int      `json:"callback,omitempty"`  // ImageWithCallback installed (always for layout targets: observation points)
 	Cache       int      `json:"cache,omitempty"`     // reg.WithCache: manifest / referrer cache of the reg scheme on
@@ -81,6 +84,8 @@ type scenario struct {
 const (
 	hostA   = "reg-a.test"
 	hostB   = "reg-b.test"
+	mirrorA = "mirror-a.test"
+	mirrorB = "mirror-b.test"
 	srcRepo = "proj/src"
 	tgtRepo = "proj/tgt"
 	refRepo = "proj/refs" // referrer target (ImageWithReferrerTgt), on the target's registry
@@ -208,7 +213,7 @@ func newWorld(sc *scenario, scratch string) (*world, error) {
 		}
 		w.tagSyms[fbTag] = "fb:" + n.Name
 		rs := sh.referrers(n.Name)
-		if len(rs) == 0 || sc.RefAPISrc != 0 {
+		if len(rs) == 0 || (sc.RefAPISrc != 0 && sc.Leftover == 0) {
 			continue
 		}
 		fb := &node{Name: "FB:" + n.Name, Kind: "index", MT: mtOCIIndex, Raw: fallbackIndexRaw(rs)}
@@ -218,7 +223,7 @@ func newWorld(sc *scenario, scratch string) (*world, error) {
 		}
 		w.addNode(fb)
 		// (only a fall-back tag that carries the whole digest is a digest tag of n: not for sha512)
-		w.dtags = append(w.dtags, wdtag{Sym: "fb:" + n.Name, Tag: fbTag, Of: n.Name, To: fb.Name, FB: true, NoFact: len(n.hexd()) > 64})
+		w.dtags = append(w.dtags, wdtag{Sym: "fb:" + n.Name, Tag: fbTag, Of: n.Name, To: fb.Name, FB: sc.RefAPISrc == 0, NoFact: len(n.hexd()) > 64})
 	}
 	// the image a stale target tag points at
 	old := newShape("old")
@@ -366,6 +371,16 @@ func newWorld(sc *scenario, scratch string) (*world, error) {
 		}
 	}
 
+	// ----- empty mirrors named by the client's host configuration
+	if sc.Mirror != "" {
+		// (a mirror that has nothing says so to every request, listings included)
+		for _, m := range []string{mirrorA, mirrorB} {
+			w.net.AddHost(m, simreg.DefaultFeatures()).Intercept = func(*simreg.Request) *simreg.Reply {
+				return &simreg.Reply{Status: 404, Body: []byte(`{"errors":[{"code":"NAME_UNKNOWN","message":"not mirrored"}]}`)}
+			}
+		}
+	}
+
 	// ----- the host behind the urls of foreign layers
 	w.extHost = w.net.AddHost(extHost, simreg.DefaultFeatures())
 	return w, nil
@@ -380,6 +395,41 @@ func seed(h *simreg.Host, repo string, n *node) {
 		h.Repos[repo].Manifests[n.Dig] = simreg.Manifest{MediaType: n.MT, Body: append([]byte{}, n.Raw...)}
 	} else {
 		h.Repos[repo].Blobs[n.Dig] = append([]byte{}, n.Raw...)
+	}
+}
+
+// wipe removes content from the target the way someone else would (registry GC, repository deleted and
+// recreated, files removed): "all" = everything, "blobs" = the blobs and the tags (manifests stay).
+func (w *world) wipe(what string) {
+	if w.tgtIsDir {
+		if what == "all" {
+			_ = os.RemoveAll(w.tgtDir)
+			return
+		}
+		for _, alg := range []string{"sha256", "sha512"} {
+			ents, _ := os.ReadDir(filepath.Join(w.tgtDir, "blobs", alg))
+			for _, e := range ents {
+				if n, ok := w.nodes[w.name(alg+":"+e.Name())]; ok && !n.isMan() {
+					_ = os.Remove(filepath.Join(w.tgtDir, "blobs", alg, e.Name()))
+				}
+			}
+		}
+		_ = os.WriteFile(filepath.Join(w.tgtDir, "index.json"), []byte(`{"schemaVersion":2,"mediaType":"`+mtOCIIndex+`","manifests":[]}`), 0o666)
+		return
+	}
+	if w.tgtHost == nil {
+		return
+	}
+	w.tgtHost.Lock()
+	defer w.tgtHost.Unlock()
+	r := w.tgtHost.Repos[w.tgtRepo]
+	if r == nil {
+		return
+	}
+	r.Blobs = map[string][]byte{}
+	r.Tags = map[string]string{}
+	if what == "all" {
+		r.Manifests = map[string]simreg.Manifest{}
 	}
 }
 
